@@ -455,6 +455,17 @@ fn run_finalize(cx: &mut CaseCx, case: &Value) {
       }
     };
     cx.nontrivial(len as u64);
+    // the output is written through a caller buffer: what the buffer held before must not matter (a client
+    // looping over requests with one array; a buffer that holds the previous output)
+    for (what, fill) in [("0xff bytes", [0xffu8; 32]), ("the previous output", base), ("pseudo-random bytes", { let mut b = [0u8; 32]; b.copy_from_slice(&prbytes(len as u64, 32)); b })] {
+      let mut out = fill;
+      cx.eval();
+      if guard(|| pp::Client::finalize(&input, 7, &pp::Point::from(&p1[..]), &mut out)).is_ok() && out != base {
+        cx.viol("C12/output-depends-on-buffer", format!("input length {}: finalize into a buffer that held {} gives another output than into a zeroed buffer{} - the output is not a function of (key, tag, input)", len, what, if out == [0u8; 32] { " (all zero)" } else { "" }), json!({"input_len": len, "buffer_held": what}));
+        return;
+      }
+      cx.count("dirty_buffer_probes", 1);
+    }
     let mut seen: HashMap<[u8; 32], String> = HashMap::new();
     seen.insert(base, "base".into());
     let mut check = |cx: &mut CaseCx, what: String, v: Option<[u8; 32]>| {
@@ -576,7 +587,7 @@ pub fn spec() -> PropSpec {
       Check { name: "repeated-requests", rule: "300 consecutive requests for two alternating inputs on one thread under fresh entropy: all blinded points pairwise distinct", gen: |_| vec![json!({})], run: run_freshness, min_counts: &[("fresh_requests", 300)] },
       Check {
         name: "finalize-sensitivity",
-        rule: "Client::finalize for EVERY input length 0..=320: the output changes when any single byte of the unblinded point, the tag, any input byte (stride 7 above 64 bytes) or the input length changes (pairwise distinct outputs per length)",
+        rule: "Client::finalize for EVERY input length 0..=320: written into a buffer that held 0xff / the previous output / pseudo-random bytes it equals the output written into a zeroed buffer; the output changes when any single byte of the unblinded point, the tag, any input byte (stride 7 above 64 bytes) or the input length changes (pairwise distinct outputs per length)",
         gen: |_| (0..16u64).map(|i| json!({"lo": i * 20, "hi": i * 20 + 20 + (i == 15) as u64})).collect(),
         run: run_finalize,
         min_counts: &[("evaluations", 10_000)],
